@@ -25,7 +25,7 @@ META = {
 
 # >= 30x (small: 100x) the maximum observed on the repaired tree over the calibration runs (small 1.2M, threshold 2.2M,
 # structured 0.04M, deep 72M events); a genuine endless loop trips any finite limit.
-STEP_LIMIT = {"gadget": 20_000_000, "small": 40_000_000, "threshold": 120_000_000, "structured": 5_000_000, "deep": 1_500_000_000}
+STEP_LIMIT = {"gadget": 20_000_000, "duplicate": 20_000_000, "small": 40_000_000, "threshold": 120_000_000, "structured": 5_000_000, "deep": 1_500_000_000}
 
 
 def call_sat(desc, ctx, events=None):
